@@ -144,6 +144,14 @@ Theorem C12_zrange_sorted_exact :
 Proof. exact exec_zrange_sorted_exact. Qed.
 Print Assumptions C12_zrange_sorted_exact.
 
+(* ... and that list is the only one: any strictly (score, name)-sorted listing of the dictionary
+   is the member list ZRANGE reads *)
+Theorem C12_zrange_order_unique : forall (z : zset) (l : list (bytes * score)),
+  zset_inv z -> StronglySorted elt_lt l ->
+  (forall m sc, In (m, sc) l <-> alookup m (zdict z) = Some sc) -> l = members (zroot z).
+Proof. exact members_unique. Qed.
+Print Assumptions C12_zrange_order_unique.
+
 (* the window: element j of the reply list is element lo + j of the list while lo + j <= hi, where
    negative indexes count from the end, lo is clamped to 0 and hi to the last index *)
 Theorem C12_zrange_window : forall (l : list (bytes * score)) (start stop : Z) (j : nat),
@@ -204,6 +212,16 @@ Theorem C12_score_order_total : forall a b c : score,
   (score_cmp a b = Lt -> score_cmp b c = Lt -> score_cmp a c = Lt).
 Proof. exact score_order_total. Qed.
 Print Assumptions C12_score_order_total.
+
+(* on the normal forms the model builds (every parsed score, every INCR result) [score_cmp] is
+   the numeric order of the decimals: the refinement by exponent is never consulted *)
+Theorem C12_score_order_numeric :
+  (forall s sc, parse_score s = Some sc -> snormal sc) /\
+  (forall a b c, snormal a -> snormal b -> score_add a b = Some c -> snormal c) /\
+  (forall a b, snormal a -> snormal b -> score_cmp a b = svalue_cmp a b) /\
+  (forall s, svalue_cmp (snorm s) s = Eq).
+Proof. exact (conj parse_score_normal (conj score_add_normal (conj score_cmp_normal snorm_value))). Qed.
+Print Assumptions C12_score_order_numeric.
 
 (* ------------------------------------------------------------------ non-vacuity: the former counterexamples *)
 Definition cmd (d : db) (args : list bytes) : reply * db := exec d 0 0 args RNil.
